@@ -10,5 +10,6 @@ CONSTANTS
   QCap = 1
   Gating = TRUE
   QfRet = FALSE
+  LexG = "full"
 INVARIANT InvExactlyOneResponse
 CHECK_DEADLOCK FALSE
